@@ -1,10 +1,15 @@
 /-
 L9c: any number of replicas, any schedule of writes and pairwise pulls (C06).
+The value type carries an ARBITRARY join-semilattice (`[SemilatticeSup V]`, `Merge.joinMax` merges
+with `⊔`); what is special to linear orders (the join of finitely many values is one of them, so the
+join of everything written is HELD by some replica) is in the section `Linear` at the end.
 -/
 import MstVerif.Proofs.SyncConv
 
+set_option linter.unusedSectionVars false
+
 namespace Mst
-variable {K V D : Type} [LinearOrder K] [LinearOrder V] [DecidableEq D]
+variable {K V D : Type} [LinearOrder K] [SemilatticeSup V] [DecidableEq V] [DecidableEq D]
 
 /-- `n` fresh replicas. -/
 def freshReplicas (n : Nat) : List (Replica K V D) := List.replicate n Replica.empty
@@ -132,29 +137,14 @@ theorem optLe_optMax_right (x y : Option V) : optLe y (optMax x y) := by
 theorem optMax_le {x y z : Option V} (h1 : optLe x z) (h2 : optLe y z) : optLe (optMax x y) z := by
   cases x <;> cases y <;> cases z <;> simp_all [optLe, optMax]
 
-theorem optMax_choice (x y : Option V) : optMax x y = x ∨ optMax x y = y := by
-  cases x with
-  | none => right; rfl
-  | some a =>
-    cases y with
-    | none => left; rfl
-    | some b =>
-      rcases le_total a b with h | h
-      · right; simp [optMax, max_eq_right h]
-      · left; simp [optMax, max_eq_left h]
-
 theorem optMax_self (x : Option V) : optMax x x = x := by
-  rcases optMax_choice x x with h | h <;> exact h
+  cases x <;> simp [optMax]
 
 theorem apply_joinMax (old : Option V) (v : V) :
     some (Merge.apply .joinMax old v) = optMax old (some v) := by
   cases old with
   | none => rfl
-  | some o =>
-    simp only [Merge.apply, optMax]
-    by_cases h : o < v
-    · simp [h, max_eq_right (le_of_lt h)]
-    · simp [h, max_eq_left (not_lt.1 h)]
+  | some o => rfl
 
 theorem written_snoc_write (ops : List (SyncOp K V)) (r : Nat) (kw : K) (v : V) (k : K) :
     written (ops ++ [SyncOp.write r kw v]) k =
@@ -217,11 +207,50 @@ theorem pullRel_self (s s' : List (K × V)) (hs : KSorted s) (hs' : KSorted s')
 
 /-! ### The safety invariant on the list of stores -/
 
-/-- Safety invariant, on the list of stores, relative to the schedule executed so far. -/
+/-- `x` is generated by the values written to `k`: some written value lies below it, and it is the
+least upper bound of the written values below it (nothing invented). In a linear order this says
+that `x` itself was written. -/
+def GenBy (ops : List (SyncOp K V)) (k : K) (x : V) : Prop :=
+  (∃ r0 v, SyncOp.write r0 k v ∈ ops ∧ v ≤ x) ∧
+  ∀ u, (∀ r0 v, SyncOp.write r0 k v ∈ ops → v ≤ x → v ≤ u) → x ≤ u
+
+theorem genBy_write {ops : List (SyncOp K V)} {r0 : Nat} {k : K} {v : V}
+    (h : SyncOp.write r0 k v ∈ ops) : GenBy ops k v :=
+  ⟨⟨r0, v, h, le_refl _⟩, fun u hu => hu r0 v h (le_refl _)⟩
+
+theorem genBy_mono {ops ops' : List (SyncOp K V)} (hsub : ∀ op ∈ ops, op ∈ ops') {k : K} {x : V}
+    (h : GenBy ops k x) : GenBy ops' k x := by
+  obtain ⟨⟨r0, v, hm, hv⟩, hl⟩ := h
+  exact ⟨⟨r0, v, hsub _ hm, hv⟩, fun u hu => hl u (fun r1 w hw hwx => hu r1 w (hsub _ hw) hwx)⟩
+
+theorem genBy_sup {ops : List (SyncOp K V)} {k : K} {p q : V} (hp : GenBy ops k p)
+    (hq : GenBy ops k q) : GenBy ops k (p ⊔ q) := by
+  obtain ⟨⟨r0, v, hm, hv⟩, hl⟩ := hp
+  refine ⟨⟨r0, v, hm, le_trans hv le_sup_left⟩, fun u hu => sup_le ?_ ?_⟩
+  · exact hl u (fun r1 w hw hwp => hu r1 w hw (le_trans hwp le_sup_left))
+  · exact hq.2 u (fun r1 w hw hwq => hu r1 w hw (le_trans hwq le_sup_right))
+
+/-- generated values are closed under the option join -/
+theorem genBy_optMax {ops : List (SyncOp K V)} {k : K} {x y : Option V} {z : V}
+    (hx : ∀ p, x = some p → GenBy ops k p) (hy : ∀ q, y = some q → GenBy ops k q)
+    (h : optMax x y = some z) : GenBy ops k z := by
+  cases x with
+  | none => exact hy z h
+  | some p =>
+    cases y with
+    | none => exact hx z h
+    | some q =>
+      simp only [optMax, Option.some.injEq] at h
+      subst h
+      exact genBy_sup (hx p rfl) (hy q rfl)
+
+/-- Safety invariant, on the list of stores, relative to the schedule executed so far: every store
+is below the join of everything written (`le`), that join is the LEAST upper bound of the stores —
+nothing written is lost (`lub`) — and every stored value is a join of written values (`gen`). -/
 structure SGood (ops : List (SyncOp K V)) (S : List (List (K × V))) : Prop where
   le : ∀ s ∈ S, ∀ k, optLe (lookupKV k s) (written ops k)
-  att : ∀ k v, written ops k = some v → ∃ s ∈ S, lookupKV k s = some v
-  wr : ∀ s ∈ S, ∀ k x, lookupKV k s = some x → ∃ r0, SyncOp.write r0 k x ∈ ops
+  lub : ∀ k u, (∀ s ∈ S, optLe (lookupKV k s) u) → optLe (written ops k) u
+  gen : ∀ s ∈ S, ∀ k x, lookupKV k s = some x → GenBy ops k x
 
 theorem mem_set_self' {α : Type} (l : List α) (i : Nat) (x : α) (h : i < l.length) : x ∈ l.set i x :=
   List.mem_iff_getElem?.2 ⟨i, by simp [h]⟩
@@ -234,11 +263,6 @@ theorem lt_of_getElem?_some {α : Type} {l : List α} {i : Nat} {a : α} (h : l[
     i < l.length := by
   obtain ⟨h', -⟩ := List.getElem?_eq_some_iff.1 h
   exact h'
-
-theorem optMax_eq_some {x y : Option V} {z : V} (h : optMax x y = some z) : x = some z ∨ y = some z := by
-  rcases optMax_choice x y with h' | h'
-  · left; rw [← h', h]
-  · right; rw [← h', h]
 
 theorem sgood_set_pull (ops : List (SyncOp K V)) (S : List (List (K × V))) (h : SGood ops S)
     (i : Nat) (si sj s' : List (K × V)) (hi : S[i]? = some si) (hj : sj ∈ S)
@@ -260,36 +284,31 @@ theorem sgood_set_pull (ops : List (SyncOp K V)) (S : List (List (K × V))) (h :
     rcases List.mem_or_eq_of_mem_set hs with hs | rfl
     · exact h.le s hs k
     · exact hle' k
-  · intro k v hv
-    obtain ⟨s, hs, hsv⟩ := h.att k v hv
+  · intro k u hu
+    apply h.lub k u
+    intro s hs
     obtain ⟨idx, hidx⟩ := List.mem_iff_getElem?.1 hs
     by_cases hne : idx = i
     · subst hne
       rw [hi] at hidx
       cases hidx
-      refine ⟨s', mem_set_self' S idx s' hlt, ?_⟩
-      apply optLe_antisymm
-      · rw [← hv]; exact hle' k
-      · rw [← hsv]; exact hmono k
-    · exact ⟨s, mem_set_ne' S i idx s' s hidx hne, hsv⟩
+      exact optLe_trans (hmono k) (hu s' (mem_set_self' S idx s' hlt))
+    · exact hu s (mem_set_ne' S i idx s' s hidx hne)
   · intro s hs k x hx
     rcases List.mem_or_eq_of_mem_set hs with hs | rfl
-    · exact h.wr s hs k x hx
+    · exact h.gen s hs k x hx
     · rcases hp k with e | e
-      · rw [e] at hx; exact h.wr si hsi k x hx
+      · rw [e] at hx; exact h.gen si hsi k x hx
       · rw [e] at hx
-        rcases optMax_eq_some hx with e' | e'
-        · exact h.wr si hsi k x e'
-        · exact h.wr sj hj k x e'
+        exact genBy_optMax (fun p hp => h.gen si hsi k p hp) (fun q hq => h.gen sj hj k q hq) hx
 
 theorem sgood_snoc_pull (ops : List (SyncOp K V)) (S : List (List (K × V))) (h : SGood ops S)
     (i j : Nat) : SGood (ops ++ [SyncOp.pull i j]) S := by
   refine ⟨?_, ?_, ?_⟩
   · intro s hs k; rw [written_snoc_pull]; exact h.le s hs k
-  · intro k v hv; rw [written_snoc_pull] at hv; exact h.att k v hv
+  · intro k u hu; rw [written_snoc_pull]; exact h.lub k u hu
   · intro s hs k x hx
-    obtain ⟨r0, hr0⟩ := h.wr s hs k x hx
-    exact ⟨r0, List.mem_append_left _ hr0⟩
+    exact genBy_mono (fun op hop => List.mem_append_left _ hop) (h.gen s hs k x hx)
 
 theorem sgood_set_write (ops : List (SyncOp K V)) (S : List (List (K × V))) (h : SGood ops S)
     (r : Nat) (kw : K) (v : V) (sr s' : List (K × V)) (hr : S[r]? = some sr)
@@ -323,63 +342,51 @@ theorem sgood_set_write (ops : List (SyncOp K V)) (S : List (List (K × V))) (h 
     rcases List.mem_or_eq_of_mem_set hs with hs | rfl
     · exact optLe_trans (h.le s hs k) (hWmono k)
     · exact hle' k
-  -- anything the old state attained is still dominated by some member
-  have hold : ∀ k w, written ops k = some w → ∃ s ∈ S.set r s', optLe (some w) (lookupKV k s) := by
-    intro k w hw'
-    obtain ⟨s, hs, hsv⟩ := h.att k w hw'
-    obtain ⟨idx, hidx⟩ := List.mem_iff_getElem?.1 hs
-    by_cases hne : idx = r
-    · subst hne
-      rw [hr] at hidx
-      cases hidx
-      exact ⟨s', mem_set_self' S idx s' hlt, by rw [← hsv]; exact hmono k⟩
-    · exact ⟨s, mem_set_ne' S r idx s' s hidx hne, by rw [hsv]; exact optLe_refl _⟩
+  have hsub : ∀ op ∈ ops, op ∈ ops ++ [SyncOp.write r kw v] :=
+    fun op hop => List.mem_append_left _ hop
+  have hnew : SyncOp.write r kw v ∈ ops ++ [SyncOp.write r kw v] :=
+    List.mem_append_right _ (List.mem_singleton.2 rfl)
   refine ⟨hle, ?_, ?_⟩
-  · intro k v' hv'
-    have hdom : ∃ s ∈ S.set r s', optLe (some v') (lookupKV k s) := by
-      rw [written_snoc_write] at hv'
-      by_cases e : kw = k
-      · subst e
-        simp only [if_true] at hv'
-        rcases optMax_choice (written ops kw) (some v) with c | c
-        · rw [c] at hv'
-          exact hold kw v' hv'
-        · rw [c] at hv'
-          cases hv'
-          refine ⟨s', mem_set_self' S r s' hlt, ?_⟩
-          rw [hw kw]; simp only [if_true]
-          exact optLe_optMax_right _ _
-      · simp only [e, if_false] at hv'
-        exact hold k v' hv'
-    obtain ⟨s, hs, hd⟩ := hdom
-    refine ⟨s, hs, ?_⟩
-    apply optLe_antisymm
-    · rw [← hv']; exact hle s hs k
-    · exact hd
+  · intro k u hu
+    have hold : optLe (written ops k) u := by
+      apply h.lub k u
+      intro s hs
+      obtain ⟨idx, hidx⟩ := List.mem_iff_getElem?.1 hs
+      by_cases hne : idx = r
+      · subst hne
+        rw [hr] at hidx
+        cases hidx
+        exact optLe_trans (hmono k) (hu s' (mem_set_self' S idx s' hlt))
+      · exact hu s (mem_set_ne' S r idx s' s hidx hne)
+    rw [written_snoc_write]
+    by_cases e : kw = k
+    · subst e
+      simp only [if_true]
+      apply optMax_le hold
+      have := hu s' (mem_set_self' S r s' hlt) 
+      rw [hw kw] at this
+      simp only [if_true] at this
+      exact optLe_trans (optLe_optMax_right _ _) this
+    · simp only [e, if_false]; exact hold
   · intro s hs k x hx
     rcases List.mem_or_eq_of_mem_set hs with hs | rfl
-    · obtain ⟨r0, hr0⟩ := h.wr s hs k x hx
-      exact ⟨r0, List.mem_append_left _ hr0⟩
+    · exact genBy_mono hsub (h.gen s hs k x hx)
     · rw [hw k] at hx
       by_cases e : k = kw
       · subst e
         simp only [if_true] at hx
-        rcases optMax_eq_some hx with e' | e'
-        · obtain ⟨r0, hr0⟩ := h.wr sr hsr k x e'
-          exact ⟨r0, List.mem_append_left _ hr0⟩
-        · cases e'
-          exact ⟨r, List.mem_append_right _ (List.mem_singleton.2 rfl)⟩
+        exact genBy_optMax (fun p hp => genBy_mono hsub (h.gen sr hsr k p hp))
+          (fun q hq => by cases hq; exact genBy_write hnew) hx
       · simp only [e, if_false] at hx
-        obtain ⟨r0, hr0⟩ := h.wr sr hsr k x hx
-        exact ⟨r0, List.mem_append_left _ hr0⟩
+        exact genBy_mono hsub (h.gen sr hsr k x hx)
 
 theorem sgood_fresh (n : Nat) : SGood ([] : List (SyncOp K V)) (List.replicate n ([] : List (K × V))) := by
   refine ⟨?_, ?_, ?_⟩
   · intro s hs k
     rw [List.eq_of_mem_replicate hs]
     simp [lookupKV, optLe]
-  · intro k v hv
-    simp [written] at hv
+  · intro k u _
+    simp [written, optLe]
   · intro s hs k x hx
     rw [List.eq_of_mem_replicate hs] at hx
     simp [lookupKV] at hx
@@ -387,16 +394,16 @@ theorem sgood_fresh (n : Nat) : SGood ([] : List (SyncOp K V)) (List.replicate n
 /-- the list of stores of a list of replicas -/
 def storesOf (rs : List (Replica K V D)) : List (List (K × V)) := rs.map (·.store)
 
-omit [LinearOrder K] [LinearOrder V] [DecidableEq D] in
+omit [LinearOrder K] [SemilatticeSup V] [DecidableEq V] [DecidableEq D] in
 theorem storesOf_getElem? (rs : List (Replica K V D)) (i : Nat) (r : Replica K V D)
     (h : rs[i]? = some r) : (storesOf rs)[i]? = some r.store := by
   simp [storesOf, h]
 
-omit [LinearOrder K] [LinearOrder V] [DecidableEq D] in
+omit [LinearOrder K] [SemilatticeSup V] [DecidableEq V] [DecidableEq D] in
 theorem mem_storesOf (rs : List (Replica K V D)) (r : Replica K V D) (h : r ∈ rs) :
     r.store ∈ storesOf rs := List.mem_map_of_mem h
 
-omit [LinearOrder K] [LinearOrder V] [DecidableEq D] in
+omit [LinearOrder K] [SemilatticeSup V] [DecidableEq V] [DecidableEq D] in
 /-- overwriting the sender by a replica with the same store leaves the list of stores alone -/
 theorem storesOf_set_set (rs : List (Replica K V D)) (i j : Nat) (ri' rj rj' : Replica K V D)
     (hij : i ≠ j) (hj : rs[j]? = some rj) (hs : rj'.store = rj.store) :
@@ -418,11 +425,11 @@ theorem set_eq_self {α : Type} {l : List α} {i : Nat} {a : α} (h : l[i]? = so
 
 /-! ### The potential -/
 
-/-- `x` is strictly below `some v` -/
+/-- `x` has not absorbed `v` yet: `¬ some v ≤ x` (decided through `v ⊔ y = y ↔ v ≤ y`) -/
 def below (x : Option V) (v : V) : Bool :=
   match x with
   | none => true
-  | some y => decide (y < v)
+  | some y => decide (v ⊔ y ≠ y)
 
 /-- the number of write operations whose value the store `s` has not reached yet -/
 def phi (ops : List (SyncOp K V)) (s : List (K × V)) : Nat :=
@@ -442,7 +449,8 @@ theorem below_mono {x x' : Option V} (h : optLe x x') (v : V) (hb : below x' v =
     | some b =>
       simp only [optLe] at h
       simp only [below, decide_eq_true_eq] at hb ⊢
-      exact lt_of_le_of_lt h hb
+      intro e
+      exact hb (sup_eq_right.2 (le_trans (sup_eq_right.1 e) h))
 
 theorem phi_le_length (ops : List (SyncOp K V)) (s : List (K × V)) : phi ops s ≤ ops.length :=
   List.countP_le_length
@@ -477,10 +485,15 @@ theorem countP_lt {α : Type} (p q : α → Bool) (l : List α)
 
 theorem phi_strict (ops : List (SyncOp K V)) (s s' : List (K × V))
     (h : ∀ k, optLe (lookupKV k s) (lookupKV k s')) (r0 : Nat) (k : K) (z : V)
-    (hmem : SyncOp.write r0 k z ∈ ops) (hz : lookupKV k s' = some z)
+    (hmem : SyncOp.write r0 k z ∈ ops) (hz : optLe (some z) (lookupKV k s'))
     (hb : below (lookupKV k s) z = true) : phi ops s' < phi ops s := by
   apply countP_lt _ _ ops _ (SyncOp.write r0 k z) hmem
-  · simp [hz, below]
+  · cases hy : lookupKV k s' with
+    | none => rw [hy] at hz; exact absurd hz (by simp [optLe])
+    | some y =>
+      rw [hy] at hz
+      simp only [optLe] at hz
+      simp [hy, below, sup_eq_right.2 hz]
   · exact hb
   · intro op _ hop
     cases op with
@@ -495,7 +508,7 @@ theorem pullRel_mono {si sj s' : List (K × V)} (hp : PullRel si sj s') (k : K) 
 
 theorem pullRel_phi_lt (ops : List (SyncOp K V)) (si sj s' : List (K × V)) (hsi : KSorted si)
     (hs' : KSorted s') (hp : PullRel si sj s')
-    (hwr : ∀ k x, lookupKV k sj = some x → ∃ r0, SyncOp.write r0 k x ∈ ops) (hne : s' ≠ si) :
+    (hgen : ∀ k x, lookupKV k s' = some x → GenBy ops k x) (hne : s' ≠ si) :
     phi ops s' < phi ops si := by
   have hex : ∃ k, lookupKV k s' ≠ lookupKV k si := by
     by_contra hcon
@@ -505,11 +518,6 @@ theorem pullRel_phi_lt (ops : List (SyncOp K V)) (si sj s' : List (K × V)) (hsi
     by_contra hk
     exact hcon ⟨k, hk⟩
   obtain ⟨k, hk⟩ := hex
-  rcases hp k with e | e
-  · exact absurd e hk
-  rcases optMax_choice (lookupKV k si) (lookupKV k sj) with c | c
-  · rw [c] at e; exact absurd e hk
-  rw [c] at e
   have hm := pullRel_mono hp k
   cases hz : lookupKV k s' with
   | none =>
@@ -517,17 +525,28 @@ theorem pullRel_phi_lt (ops : List (SyncOp K V)) (si sj s' : List (K × V)) (hsi
     rw [optLe_none hm] at hk
     exact absurd hz hk
   | some z =>
-    obtain ⟨r0, hr0⟩ := hwr k z (e ▸ hz)
-    apply phi_strict ops si s' (pullRel_mono hp) r0 k z hr0 hz
-    rw [hz] at hm hk
+    -- the new value `z` is generated by written values; one of them is not below the old value
+    obtain ⟨⟨r1, w, hw, hwz⟩, hl⟩ := hgen k z hz
     cases hx : lookupKV k si with
-    | none => rfl
+    | none =>
+      exact phi_strict ops si s' (pullRel_mono hp) r1 k w hw (by rw [hz]; exact hwz)
+        (by rw [hx]; rfl)
     | some a =>
-      rw [hx] at hm hk
-      simp only [optLe] at hm
-      have hne' : a ≠ z := fun h => hk (by rw [h])
+      rw [hz, hx] at hm hk
+      have haz : a ≤ z := hm
+      have hex' : ∃ r0 v, SyncOp.write r0 k v ∈ ops ∧ v ≤ z ∧ ¬ v ≤ a := by
+        by_contra hcon
+        apply hk
+        have hza : z ≤ a := hl a (fun r0 v hv hvz => by
+          by_contra hva
+          exact hcon ⟨r0, v, hv, hvz, hva⟩)
+        rw [le_antisymm hza haz]
+      obtain ⟨r0, v, hv, hvz, hva⟩ := hex'
+      apply phi_strict ops si s' (pullRel_mono hp) r0 k v hv (by rw [hz]; exact hvz)
+      rw [hx]
       simp only [below, decide_eq_true_eq]
-      exact lt_of_le_of_ne hm hne'
+      intro e
+      exact hva (sup_eq_right.1 e)
 
 theorem sum_map_set_le {α : Type} (f : α → Nat) (l : List α) (i : Nat) (x a : α)
     (h : l[i]? = some a) (hx : f x ≤ f a) : ((l.set i x).map f).sum ≤ (l.map f).sum := by
@@ -609,7 +628,8 @@ theorem good_pull_step (lvl : K → Nat) (hlvl : ∀ k, lvl k < 255) (hc : HashC
     have hSj := storesOf_getElem? rs j rj hj
     have hmj : rj.store ∈ storesOf rs := mem_storesOf rs rj (List.mem_of_getElem? hj)
     have hmi : ri.store ∈ storesOf rs := mem_storesOf rs ri (List.mem_of_getElem? hi)
-    refine ⟨sgood_set_pull ops _ hg i ri.store rj.store ri'.store hSi hmj hpr,
+    have hg' := sgood_set_pull ops _ hg i ri.store rj.store ri'.store hSi hmj hpr
+    refine ⟨hg',
       sum_map_set_le (phi ops) _ i _ _ hSi (phi_mono ops _ _ (pullRel_mono hpr)), ?_, ?_⟩
     · by_cases hne : ri'.store = ri.store
       · right
@@ -620,7 +640,8 @@ theorem good_pull_step (lvl : K → Nat) (hlvl : ∀ k, lvl k < 255) (hc : HashC
         exact ⟨ri, rj, ri', rj', hri, hrj, rfl, rfl, hp, hne⟩
       · left
         exact sum_map_set_lt (phi ops) _ i _ _ hSi
-          (pullRel_phi_lt ops _ _ _ hri.sorted h1.sorted hpr (hg.wr _ hmj) hne)
+          (pullRel_phi_lt ops _ _ _ hri.sorted h1.sorted hpr
+            (hg'.gen _ (mem_set_self' _ i _ (lt_of_getElem?_some hSi))) hne)
     · intro hall
       have heq : rj.store = ri.store := hall _ hmj _ hmi
       rw [heq] at hpr
@@ -698,24 +719,29 @@ theorem run_good (lvl : K → Nat) (hlvl : ∀ k, lvl k < 255) (hc : HashCfg K V
     hw
   simpa using h
 
-/-- Safety under the join merge, for every schedule from fresh replicas in which every write
-addresses an existing replica: no replica ever holds more than the join of everything written, and
-nothing written is lost — for every key the join over all replicas is exactly the join of
-everything written. -/
-theorem syncRun_safe (lvl : K → Nat) (hlvl : ∀ k, lvl k < 255) (hc : HashCfg K V D)
+/-- Safety under the join merge (ANY join-semilattice), for every schedule from fresh replicas in
+which every write addresses an existing replica: no replica ever holds more than the join of
+everything written; nothing written is lost — for every key the join of everything written is the
+LEAST upper bound of what the replicas hold; and nothing is invented — every stored value is a join
+of written values. -/
+theorem syncRun_safe_join (lvl : K → Nat) (hlvl : ∀ k, lvl k < 255) (hc : HashCfg K V D)
     (n : Nat) (ops : List (SyncOp K V))
     (hw : ∀ op ∈ ops, match op with | .write r _ _ => r < n | .pull i j => i < n ∧ j < n) :
     ∃ rs, syncRun lvl hc .joinMax (freshReplicas n : List (Replica K V D)) ops = .ok rs ∧ rs.length = n ∧
       (∀ r ∈ rs, ∀ k, optLe (lookupKV k r.store) (written ops k)) ∧
-      (∀ k v, written ops k = some v → ∃ r ∈ rs, lookupKV k r.store = some v) := by
+      (∀ k u, (∀ r ∈ rs, optLe (lookupKV k r.store) u) → optLe (written ops k) u) ∧
+      (∀ r ∈ rs, ∀ k x, lookupKV k r.store = some x → GenBy ops k x) := by
   obtain ⟨rs, hrun, hl, -, hg⟩ := run_good lvl hlvl hc n ops hw
-  refine ⟨rs, hrun, hl, ?_, ?_⟩
+  refine ⟨rs, hrun, hl, ?_, ?_, ?_⟩
   · intro r hr k
     exact hg.le _ (mem_storesOf rs r hr) k
-  · intro k v hv
-    obtain ⟨s, hs, hsv⟩ := hg.att k v hv
+  · intro k u hu
+    apply hg.lub k u
+    intro s hs
     obtain ⟨r, hr, rfl⟩ := List.mem_map.1 hs
-    exact ⟨r, hr, hsv⟩
+    exact hu r hr
+  · intro r hr k x hx
+    exact hg.gen _ (mem_storesOf rs r hr) k x hx
 
 /-- A sweep: a sequence of pulls in which every ordered pair of distinct replicas occurs. -/
 def IsSweep (n : Nat) (s : List (SyncOp K V)) : Prop :=
@@ -740,7 +766,7 @@ theorem syncRun_append (lvl : K → Nat) (hc : HashCfg K V D) (m : Merge)
 
 def PullOnly (s : List (SyncOp K V)) : Prop := ∀ op ∈ s, ∃ i j, op = SyncOp.pull i j
 
-omit [LinearOrder K] [LinearOrder V] in
+omit [LinearOrder K] [SemilatticeSup V] [DecidableEq V] in
 theorem IsSweep.pullOnly {n : Nat} {s : List (SyncOp K V)} (h : IsSweep n s) : PullOnly s := by
   intro op hop
   have := h.1 op hop
@@ -905,15 +931,11 @@ theorem syncRun_live (lvl : K → Nat) (hlvl : ∀ k, lvl k < 255) (hc : HashCfg
     exact hrun
   · intro r hr k
     have hm := mem_storesOf rs r hr
-    cases hW : written ops k with
-    | none =>
-      have := hg.le _ hm k
-      rw [hW] at this
-      exact optLe_none this
-    | some v =>
-      obtain ⟨s, hs', hsv⟩ := hg.att k v hW
-      rw [heq _ hm _ hs']
-      exact hsv
+    apply optLe_antisymm (hg.le _ hm k)
+    apply hg.lub k
+    intro s hs'
+    rw [heq _ hs' _ hm]
+    exact optLe_refl _
   · intro r₁ h₁ r₂ h₂
     have hst : r₁.store = r₂.store := heq _ (mem_storesOf rs r₁ h₁) _ (mem_storesOf rs r₂ h₂)
     refine ⟨hst, ?_⟩
@@ -926,4 +948,81 @@ theorem syncRun_live (lvl : K → Nat) (hlvl : ∀ k, lvl k < 255) (hc : HashCfg
     have he := root_unique lvl r₁.tree.root r₂.tree.root hr1.inv.shape hr2.inv.shape hcont
     rw [e1, e2, ← trueHash_erase hc r₁.tree.root, he, trueHash_erase]
 
+end Mst
+
+/-! ### Linear orders: the join of everything written is HELD by some replica -/
+
+namespace Mst
+section Linear
+variable {K V D : Type} [LinearOrder K] [LinearOrder V] [DecidableEq D]
+
+theorem optMax_choice (x y : Option V) : optMax x y = x ∨ optMax x y = y := by
+  cases x with
+  | none => right; rfl
+  | some a =>
+    cases y with
+    | none => left; rfl
+    | some b =>
+      rcases le_total a b with h | h
+      · right; simp [optMax, max_eq_right h]
+      · left; simp [optMax, max_eq_left h]
+
+theorem optMax_eq_some {x y : Option V} {z : V} (h : optMax x y = some z) : x = some z ∨ y = some z := by
+  rcases optMax_choice x y with h' | h'
+  · left; rw [← h', h]
+  · right; rw [← h', h]
+
+/-- finitely many values strictly below `some v` have an upper bound strictly below `some v` -/
+theorem exists_ub_ne (k : K) (v : V) : ∀ S : List (List (K × V)),
+    (∀ s ∈ S, optLe (lookupKV k s) (some v) ∧ lookupKV k s ≠ some v) →
+    ∃ u, (∀ s ∈ S, optLe (lookupKV k s) u) ∧ optLe u (some v) ∧ u ≠ some v
+  | [], _ => ⟨none, by simp, by simp [optLe], by simp⟩
+  | s :: S, h => by
+    obtain ⟨u, h1, h2, h3⟩ := exists_ub_ne k v S (fun t ht => h t (List.mem_cons_of_mem _ ht))
+    obtain ⟨h4, h5⟩ := h s List.mem_cons_self
+    refine ⟨optMax (lookupKV k s) u, ?_, optMax_le h4 h2, ?_⟩
+    · intro t ht
+      rcases List.mem_cons.1 ht with rfl | ht
+      · exact optLe_optMax_left _ _
+      · exact optLe_trans (h1 t ht) (optLe_optMax_right _ _)
+    · rcases optMax_choice (lookupKV k s) u with e | e <;> rw [e]
+      · exact h5
+      · exact h3
+
+/-- In a linear order a least upper bound of finitely many values is one of them. -/
+theorem attained_of_lub (k : K) (S : List (List (K × V))) (v : V)
+    (le : ∀ s ∈ S, optLe (lookupKV k s) (some v))
+    (lub : ∀ u, (∀ s ∈ S, optLe (lookupKV k s) u) → optLe (some v) u) :
+    ∃ s ∈ S, lookupKV k s = some v := by
+  by_contra hcon
+  obtain ⟨u, h1, h2, h3⟩ := exists_ub_ne k v S (fun s hs => ⟨le s hs, fun e => hcon ⟨s, hs, e⟩⟩)
+  exact h3 (optLe_antisymm h2 (lub u h1))
+
+/-- the former `att` field of `SGood`: the join of everything written to a key is held somewhere -/
+theorem SGood.att {ops : List (SyncOp K V)} {S : List (List (K × V))} (h : SGood ops S)
+    (k : K) (v : V) (hv : written ops k = some v) : ∃ s ∈ S, lookupKV k s = some v :=
+  attained_of_lub k S v (fun s hs => hv ▸ h.le s hs k) (fun u hu => hv ▸ h.lub k u hu)
+
+/-- Safety under the join merge on a LINEAR order, for every schedule from fresh replicas in which
+every write addresses an existing replica: no replica ever holds more than the join of everything
+written, and nothing written is lost — for every key the join of everything written is held by some
+replica. (Corollary of `syncRun_safe_join`: a finite join in a linear order is attained.) -/
+theorem syncRun_safe (lvl : K → Nat) (hlvl : ∀ k, lvl k < 255) (hc : HashCfg K V D)
+    (n : Nat) (ops : List (SyncOp K V))
+    (hw : ∀ op ∈ ops, match op with | .write r _ _ => r < n | .pull i j => i < n ∧ j < n) :
+    ∃ rs, syncRun lvl hc .joinMax (freshReplicas n : List (Replica K V D)) ops = .ok rs ∧ rs.length = n ∧
+      (∀ r ∈ rs, ∀ k, optLe (lookupKV k r.store) (written ops k)) ∧
+      (∀ k v, written ops k = some v → ∃ r ∈ rs, lookupKV k r.store = some v) := by
+  obtain ⟨rs, hrun, hl, hle, hlub, -⟩ := syncRun_safe_join lvl hlvl hc n ops hw
+  refine ⟨rs, hrun, hl, hle, ?_⟩
+  intro k v hv
+  obtain ⟨s, hs, hsv⟩ := attained_of_lub k (storesOf rs) v
+    (fun s hs => by
+      obtain ⟨r, hr, rfl⟩ := List.mem_map.1 hs
+      exact hv ▸ hle r hr k)
+    (fun u hu => hv ▸ hlub k u (fun r hr => hu _ (mem_storesOf rs r hr)))
+  obtain ⟨r, hr, rfl⟩ := List.mem_map.1 hs
+  exact ⟨r, hr, hsv⟩
+
+end Linear
 end Mst
